@@ -165,7 +165,10 @@ def explore(ctx, scale=1.0):
     # ---------------- correspondence: the re-typing hook ----------------
     reqs, keep = [], []
     from lark import Token, Tree
-    for text in rng.sample(bases, min(len(bases), 60 if not ctx.thorough else len(bases))) + ["SYMBOL name END", "GRID END", "MAP SYMBOL antialias END", "STYLE SYMBOL circle END", "LAYER NAME grid END", "SYMBOL NAME GRID END"]:
+    for text in rng.sample(bases, min(len(bases), 60 if not ctx.thorough else len(bases))) + ["SYMBOL name END", "GRID END", "MAP SYMBOL antialias END", "STYLE SYMBOL circle END", "LAYER NAME grid END", "SYMBOL NAME GRID END",
+                                                                                                      "style Symbol circle size 3 end", "CLASS STYLE symbol star COLOR 1 2 3 END END", "LAYER Name\nGRID\n TYPE POINT END",
+                                                                                                      'MAP OUTPUTFORMAT IMAGEMODE FEATURE NAME "x" END END', "map outputformat imagemode feature end layer feature points 1 1 end end end end",
+                                                                                                      "OUTPUTFORMAT IMAGEMODE FEATURE END", "LAYER FEATURE POINTS 1 2 END END END"]:
         Pp = trees.parser(False, False)
         try:
             tree = Pp.parse(text)
